@@ -397,6 +397,24 @@ def probes(ctx, a, hist, where):
     if sorted(CALLS) != sorted(a['plugins']['check_template']):
         ctx.violation({**sig, 'clause': 'active check_template plugins run exactly once', 'registry': 'plugins'},
                       f'history {hist}: active {sorted(a["plugins"]["check_template"])}, called {CALLS}')
+    # ... once per signature instruction of every kind (CHECK_SIG and SIGN build the message on helper tapes), and a plugin dict
+    # given to the run replaces the registered ones of the scope it names
+    pk_ = bytes.fromhex('3b6a27bcceb6a42d62a3a8d02a6f0d73653215771de243a63ac048a18b59da29')
+    for iname, script_ in (('CHECK_SIG', P(b'\x01' * 64) + P(pk_) + op('CHECK_SIG') + b'\x00'),
+                           ('SIGN', P(b'\x07' * 32) + op('SIGN') + b'\x00'),
+                           ('CHECK_MULTISIG', P(b'\x01' * 64) + P(pk_) + op('CHECK_MULTISIG') + b'\x00\x01\x01')):
+        for injected in (None, [PLUGINS['p3']], []):
+            CALLS.clear()
+            try:
+                F.run_script(script_, {'sigfield1': b'abc'}, **({} if injected is None else {'plugins': {'signature_extensions': list(injected)}}))
+            except BaseException as e:
+                ctx.violation({**sig, 'clause': 'probe run failed'}, f'history {hist}: {iname}: {e!r}')
+            ctx.ran()
+            want_calls = sorted(a['plugins']['signature_extensions']) if injected is None else (['p3'] if injected else [])
+            if sorted(CALLS) != want_calls:
+                ctx.violation({**sig, 'clause': 'active signature-extension plugins run exactly once', 'registry': 'plugins', 'instruction': iname,
+                               'injected': 'none' if injected is None else 'same scope'},
+                              f'history {hist}: {iname}, injected {None if injected is None else len(injected)}: expected calls {want_calls}, got {sorted(CALLS)}')
     # a plugin dict given to one run replaces the registered plugins of the scopes it names - and of no other scope
     for given, script_, scope in (('check_template', op('GET_MESSAGE') + b'\x00', 'signature_extensions'),
                                   ('signature_extensions', P(b'abc') + op('CHECK_TEMPLATE') + b'\x01', 'check_template'),
